@@ -49,7 +49,7 @@ RULE_TEXT = {
 
 PROPS = {
     "C01": ["TS-1", "TS-2", "GATE-1", "GATE-4", "GATE-6", "GATE-7", "GATE-8", "GATE-10", "ITER-1", "SYM-1", "SYM-2", "SYM-3", "SYM-5"],
-    "C02": ["TS-1", "TS-3", "TS-4", "GATE-1", "GATE-10", "EFF-2", "UNW-1", "PROV-1", "SYM-3", "TS-6", "TS-9", "GUARD-1"],
+    "C02": ["TS-1", "TS-3", "TS-4", "GATE-1", "GATE-10", "EFF-2", "UNW-1", "PROV-1", "SYM-3", "TS-6", "TS-9", "GUARD-1", "API-1"],
     "C03": ["GATE-5", "GATE-6", "GATE-8", "GATE-9", "GATE-10", "ITER-1", "EFF-4", "PROV-1", "TS-5", "SYM-1", "SYM-2", "SYM-3"],
     "C04": ["TS-3", "TS-4", "TS-5", "SYM-4", "API-1", "GIVE-1"],
     "C05": ["TS-2", "TS-3", "TS-4", "TS-7", "TS-8", "TS-9", "GATE-5", "EFF-2", "API-1"],
@@ -67,6 +67,9 @@ PROPS = {
 
 # API-1 keys relevant per property (API-1 covers many functions; C05 only cares about Weak clauses)
 API_FILTER = {
+    # a handle rebuilt from a raw pointer names the allocation the pointer came from: otherwise the counts it reads,
+    # the value it destroys and the block it releases are not an allocation of the library at all (seed c02p)
+    "C02": ("not-inverse-of-as_ptr", "not-value-address"),
     # an object whose value is taken by a handle-consuming API gives up its implicit weak (else the allocation leaks)
     "C04": ("implicit-weak-kept",),
     "C05": ("upgrade", "Weak::", "downgrade"),
